@@ -62,16 +62,24 @@ def generate(rng: random.Random, tier: str, seed: int) -> dict:
         modes.append("launches")      # the CLI driven in-process once per run (a new stdout object per launch)
     sc = {"base": {k: base[k] for k in ("nodes", "context", "init_data")}, "modes": modes, "n": 450,
           "sched_seed": rng.getrandbits(48), "failing": None, "traced": rng.random() < 0.5,
+          "launches_run_space": rng.random() < 0.6,     # mode `launches`: each launch is a one-run run-space launch, directory trace output
           "bad_profile_module": rng.random() < 0.35}   # queue mode: the job's registry profile names a module that cannot be imported
     if rng.random() < 0.3:
         # the repeated configuration FAILS at a node after the first one (every repetition raises / fails its Future)
         fs = [f for f in gen.applicable_failures(base) if f[0] in ("unresolvable", "type_gate", "undeclared_op", "undeclared_ctx") and f[1] >= 1]
-        if fs:
+        if rng.random() < 0.3:
+            # an empty `processor:` after at least one valid node: every run fails while nodes are being constructed
+            sc["base"]["nodes"] = sc["base"]["nodes"] + [{"processor": None}]
+            sc["failing"] = ["processor_none", len(sc["base"]["nodes"]) - 1]
+            modes = [m for m in modes if m != "queue"]
+        elif fs:
             kind, k = rng.choice(fs)
             f = gen.apply_failure(base, kind, k)
             sc["base"]["nodes"] = f["nodes"]
             sc["failing"] = [kind, k]
-            sc["modes"] = [m for m in modes if m not in ("launch", "launches")] + (["queue"] if "queue" not in modes and rng.random() < 0.5 else [])
+        if sc["failing"]:
+            want_queue = sc["failing"][0] != "processor_none" and "queue" not in modes and rng.random() < 0.5
+            sc["modes"] = [m for m in modes if m not in ("launch", "launches")] + (["queue"] if want_queue else [])
     return sc
 
 
@@ -115,9 +123,18 @@ class Sampler:
         self.ids1: set | None = None
         self.want = {warmup + n + 1: n for n in SAMPLE_AT}
 
+    by_harness = False      # reuse / fresh / launches: the harness loop itself marks run starts (works for runs that
+                            # fail before any leaf is invoked); launch / queue: the first leaf marks them
+
+    def tick_run(self) -> None:
+        self._advance()
+
     def tick(self, name: str) -> None:
-        if name != self.first_leaf:
+        if self.by_harness or name != self.first_leaf:
             return
+        self._advance()
+
+    def _advance(self) -> None:
         self.count += 1
         n = self.want.get(self.count)
         if n is not None:
@@ -236,7 +253,10 @@ def _run_mode(sc: dict, mode: str, w, stats: dict) -> list[dict]:
     try:
         failing = bool(sc.get("failing"))
 
+        sampler.by_harness = mode in ("reuse", "fresh", "launches")
+
         def one(p):
+            sampler.tick_run()
             try:
                 p.process(Payload(NoDataType(), ContextType(copy.deepcopy(base["context"]))))
                 if failing:
@@ -281,15 +301,17 @@ def _run_mode(sc: dict, mode: str, w, stats: dict) -> list[dict]:
                 raise RuntimeError(f"launch failed: {r['code']} {r['stderr'][:300]}")
         elif mode == "launches":
             svworld.WORLD = w
-            harness.write_cli_config(base, "one.yaml", executor=False,
-                                     trace=harness.trace_cfg("file", "hash", "c18_launches") if traced else None)
+            one_rs = {"blocks": [{"mode": "by_position", "context": {"rs_one": [1.0]}}]} if sc.get("launches_run_space") else None
+            harness.write_cli_config(base, "one.yaml", executor=False, run_space=one_rs,
+                                     trace=harness.trace_cfg("dir" if sc.get("launches_run_space") else "file", "hash", "c18_launches") if traced else None)
             argv = ["run", "one.yaml", "-q"]
             for k, v in base["context"].items():
                 argv += ["--context", f"{k}={json.dumps(v)}"]
             for _ in range(total):
+                sampler.tick_run()
                 r = harness.run_cli(argv)         # redirect_stdout(StringIO()) inside: a fresh stdout object per launch
-                if r["code"] != 0:
-                    raise RuntimeError(f"launch failed: {r['code']} {r['stderr'][:300]}")
+                if (r["code"] != 0) != failing:
+                    raise RuntimeError(f"launch outcome unexpected: {r['code']} {r['stderr'][:300]}")
         elif mode == "queue":
             _queue_mode(sc, total, roots, lg)
         if len(sampler.samples) != 3:
@@ -434,7 +456,7 @@ def execute(sc: dict, seed: int) -> dict:
             stats[f"fault.{sc['failing'][0]}"] = 1
         if any("derive" in n for n in sc["base"]["nodes"]):
             stats["probe.pipeline_with_sweep"] = 1
-        if any(":" in n["processor"] for n in sc["base"]["nodes"]):
+        if any(":" in (n["processor"] or "") for n in sc["base"]["nodes"]):
             stats["probe.pipeline_with_shorthand"] = 1
         stats["sim_seconds"] = 0.0265 * w.clock.reads
         seen, uniq = set(), []
